@@ -5,7 +5,7 @@
 // main.go's startCache does) whose header provider is the REAL beaconblockheader 'first' strategy over
 // scripted header nodes (main.go's default; "direct": the node client itself, main.go's other branch).  The
 // fakes sit one layer further out: beacon nodes that answer the data request, and beacon nodes that answer
-// (or do not answer) the header request of a root - per root of a call: at once (ok0), 0.6 T later (ok1),
+// (or do not answer) the header request of a root - per root of a call: at once (ok0), 0.5 T later (ok1),
 // with an error (fail; direct wiring only: 'first' turns a failing node into silence), never.  The cache is
 // told the roots the scenario marks `pre` beforehand, through SetBlockRootToSlot (what the block event does).
 // ONE wired instance (header nodes, header strategy, cache, strategy) per history.
@@ -100,7 +100,7 @@ func (hn *c07HdrNode) BeaconBlockHeader(ctx context.Context, opts *api.BeaconBlo
 	case "ok0":
 		wait = time.Duration(2*hn.node) * time.Millisecond
 	case "ok1":
-		wait = w.T*6/10 + time.Duration(3*hn.node)*time.Millisecond
+		wait = w.T/2 + time.Duration(3*hn.node)*time.Millisecond
 	case "fail":
 		done(false)
 		return nil, errors.New("c07: scripted header failure")
@@ -379,7 +379,8 @@ func c07WiredKit(strat string) c07Kit {
 
 // c07WiredObs adds to the observation of node i in call j what the wired family's trace specification needs: the
 // root class the node reported, the score without the head's slot; and - for the explanation of a rejection only -
-// when the response was available by the lookup's own duration (avail; -1: not within the call).
+// when the response was available by the lookup's own duration (avail: the answer instant for a root the cache
+// knows or learnt before, plus the header's scripted latency otherwise; the hard deadline when the context cuts it).
 func (w *c07World) obs(o verifsupport.Ev, j, i int, t0 time.Time, failScore int) {
 	c := w.h.cores[j][i]
 	r := c.script.R
@@ -388,6 +389,7 @@ func (w *c07World) obs(o verifsupport.Ev, j, i int, t0 time.Time, failScore int)
 	}
 	o["r"] = r
 	o["sf"] = 0
+	o["avail"] = o["t"]
 	if o["k"] == "valid" {
 		o["sf"] = failScore
 	}
@@ -398,7 +400,7 @@ func (w *c07World) obs(o verifsupport.Ev, j, i int, t0 time.Time, failScore int)
 	kind, pre, _ := w.script(*root)
 	at := o["t"].(int)
 	avail := at
-	if !pre {
+	if !pre && w.h.sc.Variant == "Best" {
 		hit := false
 		w.mu.Lock()
 		for _, q := range w.reqs {
@@ -407,13 +409,20 @@ func (w *c07World) obs(o verifsupport.Ev, j, i int, t0 time.Time, failScore int)
 			}
 		}
 		w.mu.Unlock()
+		T := w.h.sc.T
 		if !hit {
 			switch kind {
 			case "ok1":
-				avail = at + w.h.sc.T*6/10
+				avail = at + T/2
 			case "never":
-				avail = -1
+				avail = T
 			}
+		}
+		if avail >= T && at < T {
+			// the lookup is made under the strategy's hard context: the fetch is cut AT the deadline, the lookup
+			// fails and the response is handed over then, with the score a failed lookup leaves it
+			avail = T
+			o["s"] = failScore
 		}
 	}
 	o["avail"] = avail
